@@ -821,6 +821,15 @@ func c01Programs() []c01Prog {
 		{".m | to_entries | from_entries", c01Pipe(m, c01Pipe(c01ToEntries, c01FromEntries))}, {".m | with_entries(.)", c01Pipe(m, c01Pipe(c01ToEntries, c01FromEntries))},
 		{".m | with_entries(select(.value > 1))", c01Pipe(m, c01Pipe(c01ToEntries, c01Pipe(c01MapF(c01Select(c01Bin(c01Key("value"), one, c01Cmp(">")))), c01FromEntries)))},
 		{"[.a[], .b] | unique | length", c01Pipe(c01Collect(c01Union(ai, b)), c01Pipe(c01Unique, c01Length))}, {".a | reverse | .[0]", c01Pipe(a, c01Pipe(c01Reverse, c01Index(0)))},
+		// operators with parameters over SEVERAL current nodes of different size: a parameter that depends on the node
+		// (an open slice end, a computed bound, a computed index) is evaluated for each node
+		{"(.a, [.b, .b, .b]) | .[1:]", c01Pipe(c01Union(a, c01Collect(c01Union(b, c01Union(b, b)))), c01Slice(1))},
+		{"([.b, .b, .b], .a, .e) | .[1:]", c01Pipe(c01Union(c01Collect(c01Union(b, c01Union(b, b))), c01Union(a, c01Key("e"))), c01Slice(1))},
+		{"[.a, [.b, .b, .b], .e] | map(.[1:] | length)", c01Pipe(c01Collect(c01Union(a, c01Union(c01Collect(c01Union(b, c01Union(b, b))), c01Key("e")))), c01MapF(c01Pipe(c01Slice(1), c01Length)))},
+		{"(.a, [.b, .b, .b]) | .[-1:]", c01Pipe(c01Union(a, c01Collect(c01Union(b, c01Union(b, b)))), c01SliceTo(-1, 99))},
+		{"(.a, [.b, .b, .b]) | length", c01Pipe(c01Union(a, c01Collect(c01Union(b, c01Union(b, b)))), c01Length)},
+		{"(.a, [.b, .b, .b]) | has(2)", c01Pipe(c01Union(a, c01Collect(c01Union(b, c01Union(b, b)))), c01Has("", 2))},
+		{"(.a, [.b, .b, .b]) | .[-1]", c01Pipe(c01Union(a, c01Collect(c01Union(b, c01Union(b, b)))), c01Index(-1))},
 		// select whose condition yields NO result for some of the current nodes (a splat of an empty sequence, a nested
 		// select that drops everything): such a node is not selected, whatever the verdict on its neighbours was
 		{"(.a, .e) | select(.[] == 1)", c01Pipe(c01Union(a, c01Key("e")), c01Select(c01Bin(c01Splat, one, c01Cmp("=="))))},
